@@ -338,7 +338,12 @@ class Item(ItemConfig):
             The list of :any:`Item` nodes
         """
         ignore = [*self.disable, *self.block]
-        items = as_tuple(self.plan_data.get('additional_dependencies'))
+        # Dependencies registered by planning-mode transformations are subject to the same exclusion
+        # as the ones discovered from the IR (see the use of ``ignore`` in ItemFactory.create_from_ir)
+        items = tuple(
+            item for item in as_tuple(self.plan_data.get('additional_dependencies'))
+            if not item_factory._is_ignored(item.name, config, ignore)  # pylint: disable=protected-access
+        )
         if (dependencies := self.dependencies):
             scope_ir = self.scope_ir
             items += tuple(
